@@ -32,7 +32,7 @@ var ops = []opdef{
 	{"AddFact", true, false}, {"AddFactOverwrite", true, false}, {"RemFact", true, false}, {"AddRule", true, false}, {"RemRule", true, false},
 	{"EnableRule", true, false}, {"SetParents", true, false}, {"Clear", true, false}, {"Delete", true, false},
 	{"js:AddFact", true, false}, {"js:RemFact", true, false}, {"js:AddRule", true, false}, {"js:RemRule", true, false},
-	{"action:AddFact", true, true},
+	{"action:AddFact", true, true}, {"trigger:OneShot", true, true},
 	{"GetFact", false, true}, {"GetRule", false, true}, {"SearchFacts", false, true}, {"SearchFactsInherited", false, true}, {"SearchRules", false, true},
 	{"ListRules", false, true}, {"StateSize", false, true}, {"Query", false, true}, {"ProcessEvent", false, true}, {"js:Search", false, true}, {"js:Query", false, true},
 }
@@ -58,7 +58,9 @@ func build(kind string, g *gen.Gen) (*twin, []string) {
 	}
 	l.AddRule(ctx, "r1", core.Map{"when": map[string]interface{}{"pattern": map[string]interface{}{"do": "r"}}, "action": map[string]interface{}{"code": "'ran'"}})
 	l.AddRule(ctx, "rw", core.Map{"when": map[string]interface{}{"pattern": map[string]interface{}{"do": "w"}}, "action": map[string]interface{}{"code": "Env.AddFact('ja',{from:'action'}); 'wrote'"}})
-	ids = append(ids, "r1", "rw", "ja", "new", "nr", "jf", "jr", "!r1.disabled", "!.parents")
+	// a one-shot scheduled rule: running it (through its trigger event) ends with its removal
+	l.AddRule(ctx, "once", core.Map{"schedule": "+1h", "action": map[string]interface{}{"code": "'once ran'"}})
+	ids = append(ids, "r1", "rw", "once", "ja", "new", "nr", "jf", "jr", "!r1.disabled", "!.parents")
 	return &twin{l, st}, ids
 }
 
@@ -165,6 +167,13 @@ func exec(t *twin, o string, ctx *core.Context) (res string, err error) {
 			}
 			res = fmt.Sprint(fr.Values)
 		}
+	case "trigger:OneShot":
+		fr, cond := l.ProcessEvent(ctx, core.Map{"trigger!": "once"})
+		if cond != nil {
+			err = fmt.Errorf("%s", cond.Msg)
+		} else if fr != nil {
+			res = fmt.Sprint(fr.Values)
+		}
 	case "GetFact":
 		var f core.Map
 		f, err = l.GetFact(ctx, "f1")
@@ -217,6 +226,150 @@ func exec(t *twin, o string, ctx *core.Context) (res string, err error) {
 		res = fmt.Sprint(v)
 	}
 	return
+}
+
+// ---- a child location whose PARENT is protected ----
+
+type forest struct {
+	child, parent  *core.Location
+	cstore, pstore *core.MemStorage
+}
+
+var parentProtections = []string{"none", "readKey", "both", "writeKey", "disabled"}
+
+// inherited reads issued at the (unprotected) child
+var inheritedOps = []string{"SearchFactsInherited", "ListRulesInherited", "SearchRulesInherited", "Query", "js:Search", "js:Query", "ProcessEvent", "rule:ConditionOverParent"}
+
+func buildForest(kind string, g *gen.Gen) *forest {
+	cs, ps := drv.MustMem(), drv.MustMem()
+	c, err := drv.NewLoc("C", kind, cs)
+	if err != nil {
+		panic(err)
+	}
+	pl, err := drv.NewLoc("P", kind, ps)
+	if err != nil {
+		panic(err)
+	}
+	prov := core.NewSimpleLocationProvider(map[string]*core.Location{"C": c, "P": pl})
+	c.Provider, pl.Provider = prov, prov
+	ctx := drv.Ctx()
+	secret := gen.Strs[g.Intn(4)]
+	pl.AddFact(ctx, "ps", core.Map{"a": "parent-" + secret, "secret": secret})
+	pl.AddRule(ctx, "pr", core.Map{"when": map[string]interface{}{"pattern": map[string]interface{}{"do": "r"}}, "action": map[string]interface{}{"code": "'parent rule ran'"}})
+	c.AddFact(ctx, "cf", core.Map{"a": "child-" + secret})
+	c.AddRule(ctx, "cr", core.Map{"when": map[string]interface{}{"pattern": map[string]interface{}{"do": "r"}}, "action": map[string]interface{}{"code": "'child rule ran'"}})
+	c.AddRule(ctx, "cq", core.Map{"when": map[string]interface{}{"pattern": map[string]interface{}{"do": "q"}},
+		"condition": map[string]interface{}{"pattern": map[string]interface{}{"secret": "?s"}}, "action": map[string]interface{}{"code": "'saw ' + s"}})
+	if _, err := c.SetParents(ctx, []string{"P"}); err != nil {
+		panic(err)
+	}
+	return &forest{c, pl, cs, ps}
+}
+
+func (f *forest) protect(p string) {
+	ctx := drv.Ctx()
+	switch p {
+	case "readKey":
+		f.parent.SetProp(ctx, "", "readKey", "RK")
+	case "writeKey":
+		f.parent.SetProp(ctx, "", "writeKey", "WK")
+	case "both":
+		f.parent.SetProp(ctx, "", "writeKey", "WK")
+		f.parent.SetProp(ctx, "", "readKey", "RK")
+	case "disabled":
+		f.parent.SetProp(ctx, "", "enabled", "false")
+	}
+}
+
+func (f *forest) raw() string {
+	var out []string
+	for name, st := range map[string]*core.MemStorage{"C": f.cstore, "P": f.pstore} {
+		for k, v := range st.State(drv.Ctx())[name] {
+			if k == "!.writeKey" || k == "!.readKey" || k == "!.enabled" {
+				continue
+			}
+			out = append(out, name+"/"+k+"="+v)
+		}
+	}
+	sort.Strings(out)
+	return strings.Join(out, "\n")
+}
+
+// execInherited returns a normalised result that contains whatever of the parent was revealed.
+func (f *forest) execInherited(o string, ctx *core.Context) (res string, err error) {
+	l := f.child
+	switch o {
+	case "SearchFactsInherited":
+		var srs *core.SearchResults
+		srs, err = l.SearchFacts(ctx, core.Map{"a": "?x"}, true)
+		res = strings.Join(drv.NormSearch(srs), ";")
+	case "ListRulesInherited":
+		var rs []string
+		rs, err = l.ListRules(ctx, true)
+		sort.Strings(rs)
+		res = strings.Join(rs, ",")
+	case "SearchRulesInherited":
+		var rs map[string]*core.Rule
+		rs, err = l.SearchRules(ctx, core.Map{"do": "r"}, true)
+		ks := []string{}
+		for k := range rs {
+			ks = append(ks, k)
+		}
+		sort.Strings(ks)
+		res = strings.Join(ks, ",")
+	case "Query":
+		var qr *core.QueryResult
+		qr, err = l.Query(ctx, `{"pattern":{"a":"?x"}}`)
+		if qr != nil {
+			var xs []string
+			for _, bs := range qr.Bss {
+				xs = append(xs, fmt.Sprint(bs["?x"]))
+			}
+			sort.Strings(xs)
+			res = strings.Join(xs, ",")
+		}
+	case "js:Search":
+		var v interface{}
+		v, err = l.RunJavascript(ctx, "var xs = Env.Search({a:'?x'}, true).Found.map(function(f){return f.Id}); xs.sort(); xs.join(',')", nil, nil, nil)
+		res = fmt.Sprint(v)
+	case "js:Query":
+		var v interface{}
+		v, err = l.RunJavascript(ctx, "var xs = Env.Query({pattern:{a:'?x'}}).Bss.map(function(b){return b['?x']}); xs.sort(); xs.join(',')", nil, nil, nil)
+		res = fmt.Sprint(v)
+	case "ProcessEvent":
+		fr, cond := l.ProcessEvent(ctx, core.Map{"do": "r"})
+		if cond != nil {
+			err = fmt.Errorf("%s", cond.Msg)
+		}
+		if fr != nil {
+			vs := []string{}
+			for _, v := range fr.Values {
+				vs = append(vs, fmt.Sprint(v))
+			}
+			sort.Strings(vs)
+			res = strings.Join(vs, ",")
+		}
+	case "rule:ConditionOverParent":
+		// the child's own rule whose condition can only be satisfied by the parent's fact
+		fr, cond := l.ProcessEvent(ctx, core.Map{"do": "q"})
+		if cond != nil {
+			err = fmt.Errorf("%s", cond.Msg)
+		}
+		if fr != nil {
+			vs := []string{}
+			for _, v := range fr.Values {
+				vs = append(vs, fmt.Sprint(v))
+			}
+			sort.Strings(vs)
+			res = strings.Join(vs, ",")
+		}
+	}
+	return
+}
+
+// revealsParent: the normalised result shows a fact or rule of the parent.
+func revealsParent(res string) bool {
+	return strings.Contains(res, "parent-") || strings.Contains(res, "ps") || strings.Contains(res, "pr") || strings.Contains(res, "parent rule ran") || strings.Contains(res, "saw ")
 }
 
 func refusedExpected(o opdef, p, c string) bool {
@@ -297,6 +450,61 @@ func main() {
 			}
 		}
 	}
+	parentMatrix(r, e, rounds)
 	r.Write()
 	fmt.Fprintf(os.Stderr, "c19 batch %d: %d evaluations\n", e.Batch, r.Evaluations)
+}
+
+// parentMatrix: inherited reads at an unprotected child of a protected parent.
+// Without the parent's read key (or with the parent disabled) nothing of the
+// parent may be revealed and nothing may change; with the key (and for a mere
+// write key) the answer equals that of an unprotected forest.
+func parentMatrix(r *rep.Report, e rep.Env, rounds int) {
+	for round := 0; round < rounds; round++ {
+		for _, kind := range drv.Kinds {
+			for _, p := range parentProtections {
+				for _, c := range callers {
+					for oi, o := range inheritedOps {
+						seed := e.BatchSeed()*1000000007 + int64(round*1000+oi)
+						prot := buildForest(kind, gen.New(seed))
+						plain := buildForest(kind, gen.New(seed))
+						prot.protect(p)
+						r.Journal(rep.J{"state": kind, "parent_protection": p, "caller": c, "op": o})
+						before := prot.raw()
+						res, err := prot.execInherited(o, callerCtx(c))
+						after := prot.raw()
+						res2, err2 := plain.execInherited(o, drv.Ctx())
+						r.Case(p != "none", fmt.Sprintf("parent|%s|%s|%s|%s|%d", kind, p, c, o, seed))
+						r.Count("parent_protected_cases", 1)
+						wit := rep.J{"state": kind, "parent_protection": p, "caller": c, "op": o, "issued_at": "the unprotected child C of P", "error": drv.ErrStr(err), "result": res,
+							"unprotected_result": res2, "unprotected_error": drv.ErrStr(err2), "storage_before": before, "storage_after": after}
+						if !revealsParent(res2) || err2 != nil {
+							r.Violate("", "harness: the unprotected forest does not show the parent's data for "+o, wit)
+							continue
+						}
+						mustHide := p == "disabled" || ((p == "readKey" || p == "both") && c != "rightkey")
+						if mustHide {
+							r.Count("refusals_expected", 1)
+							if revealsParent(res) {
+								r.Violate("", fmt.Sprintf("%s at a child reveals facts or rules of its protected parent (%s) to caller %s", o, p, c), wit)
+								continue
+							}
+							if err == nil {
+								r.Violate("", fmt.Sprintf("%s at a child of a protected parent (%s) reports success to caller %s although the parent's part was refused", o, p, c), wit)
+								continue
+							}
+							if before != after {
+								r.Violate("", fmt.Sprintf("%s was refused (%v) but changed state or storage", o, err), wit)
+							}
+							continue
+						}
+						r.Count("allowed_expected", 1)
+						if (err == nil) != (err2 == nil) || res != res2 {
+							r.Violate("", fmt.Sprintf("%s with the right keys behaves differently from an unprotected parent", o), wit)
+						}
+					}
+				}
+			}
+		}
+	}
 }
